@@ -52,6 +52,12 @@ def line_infer(T, X, cut_list, S):
     return f"infer {core.fhex(T)} {n} {d} {core.fl(X)} {cl_tokens(cut_list)} {L} {K} {core.fl(S)}"
 
 
+def line_grads(T, X, cut_list, S, P, G):
+    n, d = X.shape
+    L, K = S.shape
+    return f"grads {core.fhex(T)} {n} {d} {core.fl(X)} {cl_tokens(cut_list)} {L} {K} {core.fl(S)} {core.fl(P)} {core.fl(G)}"
+
+
 def line_init(d, n_cuts, mask):
     if mask is None:
         return f"init {d} {n_cuts} 0"
